@@ -82,3 +82,25 @@ Print Assumptions C04_section_append_refuted.
 Theorem C04_default_config_without_section_refuted : exists sc, scall_class sc = 4%N /\ ~ sub_precedence_statement sc.
 Proof. exact dcf_without_section_refuted. Qed.
 Print Assumptions C04_default_config_without_section_refuted.
+
+(* class 6: PREFIX_SUBCOMMAND names the subcommand: its defaults are copied over the NAME: sections of the default
+   config files and of the environment config *)
+Theorem C04_subcommand_variable_resets_section_refuted : exists sc, scall_class sc = 6%N /\ ~ sub_precedence_statement sc.
+Proof. exact envsub_resets_refuted. Qed.
+Print Assumptions C04_subcommand_variable_resets_section_refuted.
+
+(* PREFIX_SUBCOMMAND (modelled in Model/C04Sub.v load_env_vars_sub) is NOT a source of values: for EVERY call with a
+   subcommand, a value that does not name the subcommand chosen on the command line (another subcommand, no subcommand
+   at all), or any value while the environment is not read, leaves the whole result of the code-shaped pipeline — and
+   the documented fold — exactly what they are without the variable. *)
+Theorem C04_subcommand_variable_is_not_a_source : forall sc v,
+  (match v with Some w => name_eqb w (s_name sc) | None => false end && env_is_source (s_parent sc))%bool = false ->
+  pipeline_sub (with_envsub sc v) = pipeline_sub (with_envsub sc None) /\
+  final_values_sub (with_envsub sc v) = final_values_sub (with_envsub sc None).
+Proof. exact envsub_inert. Qed.
+Print Assumptions C04_subcommand_variable_is_not_a_source.
+
+Example C04_subcommand_variable_hypothesis_satisfiable :
+  exists sc v, v <> None /\ wf_scall (with_envsub sc v) = true /\
+    (match v with Some w => name_eqb w (s_name sc) | None => false end && env_is_source (s_parent sc))%bool = false.
+Proof. exact envsub_inert_satisfiable. Qed.
